@@ -7,6 +7,7 @@ use mcx::{Ctx, Tier};
 mod util;
 
 mod c06;
+mod c10;
 mod c14;
 
 type CheckFn = fn(&Ctx);
@@ -22,6 +23,7 @@ struct Check {
 fn checks() -> Vec<Check> {
     vec![
         Check { id: "C06", level: "model_checking", run: c06::run, replay: Some(c06::replay) },
+        Check { id: "C10", level: "model_checking", run: c10::run, replay: Some(c10::replay) },
         Check { id: "C14", level: "model_checking", run: c14::run, replay: Some(c14::replay) },
     ]
 }
